@@ -145,7 +145,7 @@ func runWorker(ws workerSpec) *workerResult {
 	if gmp == 0 {
 		gmp = defaultGOMAXPROCS
 	}
-	env = append(env, "GOMAXPROCS="+strconv.Itoa(gmp), "GORACE=halt_on_error=0 history_size=5")
+	env = append(env, "GOMAXPROCS="+strconv.Itoa(gmp), "GORACE=halt_on_error=0 history_size=5 atexit_sleep_ms=0")
 	cmd.Env = env
 	var stdout, stderr bytes.Buffer
 	cmd.Stdout = &stdout
